@@ -3,6 +3,7 @@ package c13
 import (
 	"fmt"
 	"math/rand"
+	"net/url"
 	"regexp"
 	"sort"
 	"strings"
@@ -462,6 +463,11 @@ func (c *config) genProbe(r *rand.Rand, proxyAddr, path string) probe {
 		}
 		p.Target = "http://" + ui + auth + path
 		p.Raw = true
+		if pu, err := url.Parse(p.Target); err != nil || pu.Host != auth {
+			// not a well-formed absolute-form request-target (e.g. a non-numeric port): the HTTP
+			// server may refuse it before any routing happens
+			p.MayBe400 = true
+		}
 	}
 	if !plainHostBytes(p.Eff) {
 		p.MayBe400 = true
